@@ -20,10 +20,10 @@ def run(run):
                    env={'VERIF_LANG': 'LTiny', 'VERIF_DEPTH': 3, 'VERIF_MAXREJ': 0}, timeout=1500,
                    name='every accepted ModelSM behaviour of depth 3 on LTiny')
     n = 1500 if quick else 25000
-    for lang in ('LDup', 'LOne', 'LSet'):
+    for lang in ('LDup', 'LOne', 'LSame'):
         run.gen_replay('Gen_Model', 'Gen_Model_sim.cfg', A, {'langs': langs},
                        env={'VERIF_LANG': lang, 'VERIF_DEPTH': 9, 'VERIF_MAXREJ': 0}, simulate=10 ** 9, depth=10,
                        max_cases=n, workers=8, timeout=400 if quick else 2400, name='random behaviours of depth 9 on %s' % lang)
-    for lang, depth in (('LDef', 3), ('LTiny', 3), ('LSet', 3)) if quick else (('LDef', 4), ('LTiny', 5), ('LSet', 5), ('LTrans', 5), ('LInh', 3)):
+    for lang, depth in (('LDef', 3), ('LTiny', 3), ('LOne', 3)) if quick else (('LDef', 4), ('LTiny', 5), ('LSet', 5), ('LTrans', 5), ('LInh', 3), ('LOne', 4)):
         run.gen_replay('Gen_Graph', 'Gen_Graph.cfg', 'harness.replay_neo_graph', {'langs': langs},
                        env={'VERIF_LANG': lang, 'VERIF_DEPTH': depth}, timeout=1500, name='attack graphs of %s models to depth %d' % (lang, depth))
